@@ -324,6 +324,7 @@ func (g *fileIPGenerator) IPs(ctx context.Context, _ *Range) (<-chan IPGetter, e
 		scanner := bufio.NewScanner(input)
 		var entry IPPort
 		for scanner.Scan() {
+			entry.IP = ""
 			if err := entry.UnmarshalJSON(scanner.Bytes()); err != nil {
 				writeIP(ctx, out, &ipError{error: ErrJSON})
 				return
